@@ -7,7 +7,7 @@ def samplerCfg : SamplerCfg :=
   { interDimOp := .le, interChecksAll := true, unionDimOp := .eq, unionWeight := .size,
     unionCount := .allRegs, unionAccept := .invCount, diffRejectsInB := true }
 /-- the membership test of the sampler installed by PointSetRegion.intersect -/
-def ballFilter : BallFilter := .containsPoint
+def ballFilter : BallFilter := .trueContainsPoint
 /-- SectorRegion._makeCircumcircle -/
 def sectorCircCfg : SectorCircCfg := { thr := 1/2, k := 2, op := .divide }
 /-- circumcircle radius of CircularRegion / RectangularRegion / MeshRegion -/
